@@ -584,3 +584,65 @@ def helper_contract(ctx, run, rule="RF-NEG"):
                           "damaged byte pair" % (r.get("op") or r["k"]), ex.loc(f, i), witness={"operator": r.get("op")})
     if ok is None:
         raise AnalysisBroken("vbi_unham16p: the return of the two combined table values was not found")
+
+
+def call_arg_sinks(a):
+    """Yield (call node, arg index, taint) for every call of a function other than the decoders
+    and the pure value helpers that is handed a sign-preserving, still unchecked decode result:
+    the callee then works with -1 as if it were data."""
+    f = a.f
+    for bid, i in flow.all_events(f):
+        e = f.exprs[i]
+        if e["k"] != "call":
+            continue
+        n = e.get("callee")
+        if n in a.sources or n in a.extra or n in PASS_THROUGH or n is None:
+            continue
+        st = a.state_before(i)
+        if st is None:
+            continue
+        for k, arg in enumerate(e.get("c", [])):
+            t = frozenset((s, pz) for s, pz in a.taint(st, arg) if pz)
+            if t:
+                yield i, k, t
+
+
+def callee_tests_param(ctx, f, call, k):
+    """The callee examines parameter k itself: every read of it other than the test lies behind
+    the non-negative edge of a `param < 0` / `param >= 0` branch."""
+    e = f.exprs[call]
+    g = ctx.prog.func_for(f, e.get("callee")) if e.get("callee") else None
+    if g is None or k >= len(g.params):
+        return False
+    pn = g.params[k]["name"]
+    a = Neg(ctx, g)
+    edges = set()       # (src block, label) proving pn >= 0
+    conds = set()
+    for bid, b in g.blocks.items():
+        t = b.term
+        if not t or "cond" not in t:
+            continue
+        for lab in ("T", "F"):
+            st = {"ok": frozenset(), ("t", pn): frozenset([(("param", CUR), True)])}
+            try:
+                out = a.assume(st, t["cond"], lab == "T")
+            except Exception:
+                continue
+            if ("param", CUR) in out["ok"]:
+                edges.add((bid, lab))
+                conds.add(ex.skip(g, t["cond"]))
+    if not edges:
+        return False
+    pos = flow.elem_pos(g)
+    for i, x in enumerate(g.exprs):
+        if x["k"] != "ref" or x.get("name") != pn or x.get("dk") != "param":
+            continue
+        p = pos.get(i)
+        if p is None:
+            continue
+        if any(i in set(ex.walk(g, c)) for c in conds):
+            continue
+        dom = {(s, l) for s, l, c in flow.dominating_edges(g, p[0])}
+        if not (dom & edges):
+            return False
+    return True
